@@ -167,7 +167,12 @@ def run_cache(exe, args, data, child_args, timeout, stages=None):
                 os.killpg(p.pid, signal.SIGKILL)
             except Exception:
                 p.kill()
-            out, err = p.communicate()
+            if p.stdin is not None and p.stdin.closed:
+                p.stdin = None        # communicate() already closed it (empty input): do not flush it again
+            try:
+                out, err = p.communicate(timeout=10)
+            except Exception:
+                out, err = b"", b""
             status = "timeout"
         with open(tf.name, "rb") as f:
             trace = f.read().decode("ascii", "replace")
@@ -241,6 +246,12 @@ def main(argv):
         jobs.append(([], None, None, [mg + b"ello world", b"second"], "echo", 0))
         magic_jobs.add(len(jobs))
         jobs.append(([], None, None, [b"hello", b"world", b"hello"], "eager+pre=" + mg.hex(), 0))
+    # two (three) LONG lines in a row: the second is still incomplete when the reader's 1 MiB buffer is full and
+    # starts neither at offset 0 nor in the second half of it (grow-vs-shift decision of the pipe reader, on the
+    # input side and on the child's answers)
+    for lens in ((300000, 900000), (100000, 1000000), (500000, 600000, 700000), (10, 520000, 1048000), (600000, 900000)):
+        for mode in ("echo", "eager"):
+            jobs.append(([], None, None, [bytes([97 + k]) * n for k, n in enumerate(lens)], mode, 0))
     # a STATEFUL child (numbers its answers): the line for input i is the answer line the child WROTE for the first
     # line with the same key (C04_any_child_answer_of_first_line_with_same_key)
     for mode in ("eager+num", "block:7+num", "readall+num", "stdio+num"):
@@ -329,7 +340,7 @@ def main(argv):
         # ---- model: same key ids, same lines
         if ji in magic_jobs:
             continue     # the model's `records` is about plain streams (see the open finding)
-        if drv is not None and len(lines) <= 3000:
+        if drv is not None and len(lines) <= 3000 and max([len(l) for l in lines] or [0]) <= 400000:   # (list-of-bytes model: longer lines overflow the driver's stack)
             ids = {}
             items = []
             for l, k in zip(lines, keys):
